@@ -24,7 +24,10 @@ RULE = ('random rasters up to 6x6: zone ids from a small alphabet (negative, fra
         'INDEPENDENTLY in memory layout C / Fortran copy / reversed-axes view / strided view (Dask: also a lazily transposed '
         'array); dimension names equal / different / swapped between zones and values (the call is positional); every pair of '
         'zones x values dtype over float64/float32/int8..64/uint8..64; zone_ids / cat_ids also empty, fractional on integer '
-        'rasters, negative; a stream with zone ids and categories above 2**24 / 2**53 (exact ints, adjacent); a Dask stream with zones and '
+        'rasters, negative; a stream with zone ids and categories above 2**24 / 2**53 (exact ints, adjacent); appended theme streams (reversed / non-writeable arrays; zone_ids / cat_ids as tuple or numpy arrays of other dtypes, '
+        'nodata 0.0 / numpy scalars; float16 values; non-integer categories 0.1, 2**-120, 1e100, 2**24+1 with nodata one ulp '
+        'around a cell; string layer labels; 1x1 / 2x2 / all-NaN / all-equal / single-valid-cell rasters; call sequences with '
+        'coords+attrs, inputs unchanged, derived rasters); a Dask stream with zones and '
         'values chunked INDEPENDENTLY by irregular chunk tuples (same per-axis maximum but different splits such as (4,2,2) vs '
         '(4,4), same number of blocks with other boundaries, one side unchunked; 2-D and 3-D); NumPy backend on '
         'every case and the Dask backend (one chunking) on about one in seven. The thorough tier enumerates every ordered sub-list '
@@ -44,6 +47,8 @@ ASSUMPTIONS = [
     'the source carries fixes/C04-cat-start-offset.diff, fixes/C04-zone-row-labels.diff and fixes/C02-neg-inf-zone.diff (without '
     'them: violations with keys cat-ids-skip-present-category / zone-ids-request-order-labels / neg-inf-zone-shifts-slices)',
     'zone_ids contains no NaN in the theorems (NaN ids are exercised by the correspondence only); cat_ids has no duplicates',
+    'float16 zones and float16 2-D categories are outside the domain (numba cannot compile _strides for float16: '
+    'NotImplementedError); float16 3-D values are covered',
     '3-D min/max over a zone/layer with no valid cell raise ValueError in NumPy (zero-size reduction): outside the modelled '
     'domain, such cases are generated, expected to raise, and not compared',
 ]
@@ -173,6 +178,13 @@ def layout_nd(a, layout):
         big = np.full(a.shape[:-1] + (a.shape[-1] * 2 + 1,), 77, dtype=a.dtype)
         big[..., 1::2] = a
         return big[..., 1::2]
+    if layout == 'R':                        # reversed view along every axis (negative strides)
+        rev = (slice(None, None, -1),) * a.ndim
+        return np.ascontiguousarray(a[rev])[rev]
+    if layout == 'W':                        # non-writeable buffer
+        a = np.ascontiguousarray(a).copy()
+        a.flags.writeable = False
+        return a
     return np.ascontiguousarray(a)
 
 
@@ -236,8 +248,9 @@ def call_impl(case):
     """the crosstab result as returned (a lazy dask DataFrame on the Dask backend)"""
     from xrspatial.zonal import crosstab
     z, v, layer = build_inputs(case)
-    return crosstab(z, v, zone_ids=case['zone_ids'], cat_ids=case['cat_ids'], layer=layer, agg=case['agg'],
-                    nodata_values=case['nodata'])
+    return crosstab(z, v, zone_ids=c02.ids_arg(case['zone_ids'], case.get('zids_as')),
+                    cat_ids=c02.ids_arg(case['cat_ids'], case.get('cids_as')), layer=layer, agg=case['agg'],
+                    nodata_values=c02.nodata_arg(case['nodata'], case.get('nodata_as')))
 
 
 def run_impl(case):
@@ -251,15 +264,19 @@ def canon_df(df):
     cols = list(df.columns)
     if not cols or cols[0] != 'zone':
         raise AssertionError('columns %r' % cols)
-    return dict(cols=[c02.num(c) for c in cols[1:]],
+    return dict(cols=[(str(c) if isinstance(c, str) else c02.num(c)) for c in cols[1:]],
                 rows=[(c02.num(df['zone'].iloc[i]), [float(df.iloc[i, j]) for j in range(1, len(cols))]) for i in range(len(df))])
 
 
 # --------------------------------------------------------------------------- oracle (property text)
+def _lab(x):
+    return x if isinstance(x, str) else c02.exact(x)
+
+
 def requested_cats(existing, cat_ids):
     if cat_ids is None:
         return list(existing)
-    return [c02.exact(c) for c in cat_ids if any(c02.exact(c) == e for e in existing)]
+    return [_lab(c) for c in cat_ids if any(_lab(c) == e for e in existing)]
 
 
 def in_cat_class(case, existing):
@@ -294,7 +311,7 @@ def expectation(case):
             else:
                 out.append((z, [None if total == 0 else Fraction(cnt.get(c, 0) * 100, total) for c in cols]))
         return cols, out, existing
-    labels = [c02.exact(l) for l in case['labels']]
+    labels = [_lab(l) for l in case['labels']]
     cols = requested_cats(labels, case['cat_ids'])
     out = []
     for z in rows:
@@ -320,7 +337,7 @@ def entry_ok(got, exp, case):
         return math.isnan(got)
     if math.isnan(got) or math.isinf(got):
         return False
-    tol = 1e-4 if (case['vdtype'] == 'float32' and case['ndim'] == 3) else 1e-9
+    tol = c02.TOL.get(case['vdtype'], 1e-9) if case['ndim'] == 3 else 1e-9
     if isinstance(exp, tuple):      # std
         e = math.sqrt(exp[1])
         return abs(got - e) <= tol * (1 + abs(e))
@@ -443,6 +460,8 @@ def one(ctx, case, pending):
         ctx.count('hard/ids-and-categories-above-2^24-or-2^53')
     if case.get('chunkmode'):
         ctx.count('dask/irregular-chunk-pairs/%dD/%s' % (case['ndim'], case['chunkmode']))
+    if case.get('theme'):
+        ctx.count('theme/%s/%dD/%s%s' % (case['backend'], case['ndim'], case['theme'], '/' + case['degenerate'] if case.get('degenerate') else ''))
     if case.get('dimnames'):
         ctx.count('dims/%s' % '-'.join(case['dimnames'][0] + case['dimnames'][1] + [case['dimnames'][2]]))
     if case['ndim'] == 3:
@@ -470,6 +489,8 @@ def one(ctx, case, pending):
         ctx.violation('oracle', 'crosstab: min/max over an empty selection did not raise', case)
         return
     oracle(ctx, case, out)
+    if case.get('oracle_only'):
+        return
     line, s = model_line(case)
     pending.append((line, s, case, out))
 
@@ -520,6 +541,187 @@ def gen_chunk_case(rng, i):
     return case
 
 
+# --------------------------------------------------------------------------- appended "theme" streams (round-5 audit)
+def gen_theme_case(rng, i):
+    theme = ['layout', 'containers', 'float16', 'oddfloat', 'strlabels', 'degenerate'][i % 6]
+    case = gen_case(rng, True, i)
+    case['theme'] = theme
+    rows, cols = len(case['zones']), len(case['zones'][0])
+    vd = case['vdtype']
+    if theme == 'layout':
+        case['zlayout'], case['vlayout'] = rng.choice(c02.LAYOUTS6), rng.choice(['R', 'W', 'R', 'W', 'F', 'S'])
+        if rng.random() < 0.5:
+            case['zlayout'], case['vlayout'] = case['vlayout'], case['zlayout']
+    elif theme == 'containers':
+        present = [z for z in c02.finite_zone_ids(case['zones']) if float(z) == int(z) and abs(z) < 100]
+        if present:
+            ids = rng.sample(present, rng.randint(1, len(present))) + ([11.0] if rng.random() < 0.4 else [])
+            rng.shuffle(ids)
+            how = rng.choice(['tuple', 'ndarray:int64', 'ndarray:float32', 'ndarray:int16'])
+            case['zone_ids'] = [int(z) for z in ids] if 'int' in how or rng.random() < 0.5 else ids
+            case['zids_as'] = how
+        if case['ndim'] == 2:
+            cats = sorted({v for row in case['values'] for v in row if isfin(v)})
+            if cats:
+                cids = rng.sample(cats, rng.randint(1, len(cats))) + ([7.0] if rng.random() < 0.4 else [])
+                rng.shuffle(cids)
+                how = rng.choice(['tuple', 'ndarray:float32', 'ndarray:int32', 'ndarray:float64'])
+                case['cat_ids'] = [int(c) for c in cids] if 'int' in how else cids
+                case['cids_as'] = how
+            vals = cats
+        else:
+            vals = [v for L in case['layers'] for row in L for v in row if isfin(v)]
+        if rng.random() < 0.3:
+            case['nodata'] = 0.0
+        elif vals:
+            case['nodata'] = rng.choice(vals)
+            case['nodata_as'] = rng.choice(['float32', 'float64', 'int64'])
+        if case['backend'] == 'dask':
+            pres = c02.finite_zone_ids(case['zones'])
+            if case['zone_ids'] is not None and not any(c02.exact(z) in pres for z in case['zone_ids']):
+                case['zone_ids'] = None
+                case.pop('zids_as', None)
+    elif theme == 'float16':
+        # float16 is only reachable for 3-D VALUES: numba cannot compile _strides for float16 zones or 2-D categories
+        # (NotImplementedError), so those are outside the domain
+        case['vdtype'] = 'float16'
+        if case['ndim'] == 2:
+            labels = rng.sample([0.0, 1.0, 2.0, 5.0, 7.0], rng.randint(1, 3))
+            case.update(ndim=3, labels=labels, layer_axis=rng.choice([0, 1, 2]), cat_ids=None,
+                        agg=rng.choice(AGG3) if case['backend'] == 'numpy' else 'count')
+            case['layer'] = None if case['layer_axis'] == 0 else case['layer_axis']
+            case.pop('values', None)
+        case['layers'] = [c02.gen_values(rng, rows, cols, 'float16') for _ in case['labels']]
+        case['nodata'] = None if rng.random() < 0.6 else 0
+    elif theme == 'oddfloat':
+        vd = rng.choice(['float64', 'float32'])
+        alph = rng.sample(c02.ODD64 if vd == 'float64' else c02.ODD32, rng.randint(2, 5))
+        values = [[rng.choice(alph) if rng.random() > 0.08 else NAN for _ in range(cols)] for _ in range(rows)]
+        values = c02.to_floats(np_array(values, vd))
+        flat = sorted({v for row in values for v in row if isfin(v)})
+        case.update(ndim=2, values=values, vdtype=vd, oracle_only=True, nodata=None, agg=rng.choice(['count', 'percentage']),
+                    cat_ids=None if (rng.random() < 0.5 or not flat) else rng.sample(flat, rng.randint(1, len(flat))))
+        for k in ('layers', 'labels', 'layer', 'layer_axis', 'nodata_as'):
+            case.pop(k, None)
+        if flat and rng.random() < 0.7:
+            t = np.dtype(vd).type
+            v0 = rng.choice(flat)
+            nd = rng.choice([t(v0), np.nextafter(t(v0), t(np.inf)), np.nextafter(t(v0), t(-np.inf))])
+            case['nodata'], case['nodata_as'] = float(nd), vd
+    elif theme == 'strlabels':
+        nl = rng.randint(1, 4)
+        labels = rng.sample(['red', 'nir', 'swir1', 'b4', ''], nl)
+        case.update(ndim=3, labels=labels, layers=[c02.gen_values(rng, rows, cols, vd) for _ in labels], oracle_only=True,
+                    agg=rng.choice(['count', 'sum', 'mean']) if case['backend'] == 'numpy' else 'count',
+                    cat_ids=None if rng.random() < 0.4 else rng.sample(labels + ['absent'], rng.randint(1, nl + 1)),
+                    layer_axis=rng.choice([0, 1, 2]), nodata=None if rng.random() < 0.6 else 0)
+        case['layer'] = None if case['layer_axis'] == 0 else case['layer_axis']
+        case.pop('values', None)
+    else:
+        kind = rng.choice(['1x1', '2x2', 'all-nan-values', 'all-equal', 'single-valid-cell'])
+        case['degenerate'] = kind
+        n = {'1x1': 1, '2x2': 2}.get(kind)
+        if n:
+            case['zones'] = [[float(rng.choice([1, 1, 2])) for _ in range(n)] for _ in range(n)]
+            rows = cols = n
+        elif kind == 'all-equal':
+            case['zones'] = [[1.0] * cols for _ in range(rows)]
+        gen = (lambda: [[float(rng.randint(0, 3)) for _ in range(cols)] for _ in range(rows)])
+        if kind == 'all-nan-values':
+            case['vdtype'] = 'float64'
+            gen = (lambda: [[NAN] * cols for _ in range(rows)])
+        elif kind == 'all-equal':
+            gen = (lambda: [[2.0] * cols for _ in range(rows)])
+        elif kind == 'single-valid-cell':
+            case['vdtype'] = 'float32'
+            def gen():
+                g = [[NAN] * cols for _ in range(rows)]
+                g[rng.randrange(rows)][rng.randrange(cols)] = float(rng.randint(0, 3))
+                return g
+        if case['ndim'] == 2:
+            case['values'] = gen()
+            case['cat_ids'] = None
+        else:
+            case['layers'] = [gen() for _ in case['labels']]
+            if case['agg'] in ('min', 'max'):
+                case['agg'] = 'mean'
+        case['nodata'] = None
+        case['zone_ids'] = None
+        if case['backend'] == 'dask':
+            case['chunks'] = [rng.randint(1, rows), rng.randint(1, cols)]
+    return case
+
+
+def run_sequence(ctx, case):
+    """the same call twice, inputs unchanged, then calls on rasters derived (isel / astype / copy+assign_coords) from the
+    processed ones; coordinates descending / fractional / 1e6-spaced and attrs present"""
+    from xrspatial.zonal import crosstab
+    z, v, layer = build_inputs(dict(case, backend='numpy'))
+    rows, cols = z.shape
+    ys = [10.5 - 0.25 * r for r in range(rows)]
+    xs = [-3.0e6 + 1.0e6 * c for c in range(cols)]
+    z = z.assign_coords({z.dims[0]: ys, z.dims[1]: xs}).assign_attrs(res=(1.0e6, 0.25), crs='EPSG:4326')
+    sp = [d for d in v.dims if d not in v.coords or v.ndim == 2][:]
+    spatial = [d for i, d in enumerate(v.dims) if not (v.ndim == 3 and i == layer_position(case))]
+    v = v.assign_coords({spatial[0]: ys, spatial[1]: xs}).assign_attrs(res=(1.0e6, 0.25), nodata=-1)
+    snap = [(a.data.copy(), {k: c.values.copy() for k, c in a.coords.items()}, dict(a.attrs), a.dtype, a.dims) for a in (z, v)]
+
+    def call(zz, vv):
+        return canon_df(crosstab(zz, vv, zone_ids=case['zone_ids'], cat_ids=case['cat_ids'], layer=layer, agg=case['agg'],
+                                 nodata_values=case['nodata']))
+
+    def unchanged(step):
+        for a, (d, cs, at, dt, dm) in zip((z, v), snap):
+            if not (c02._nan_equal(a.data, d) and dict(a.attrs) == at and a.dtype == dt and a.dims == dm and
+                    set(a.coords) == set(cs) and all(np.array_equal(a.coords[k].values, cs[k]) for k in cs)):
+                ctx.violation('oracle', 'crosstab modified an input raster (data / coords / attrs) during %s' % step, dict(case, step=step))
+                return False
+        return True
+
+    cols_, rows_, _ = expectation(case)
+    if any(e == 'raise' for _, es in rows_ for e in es):
+        return
+    try:
+        out1 = call(z, v)
+        if not unchanged('the first call'):
+            return
+        out2 = call(z, v)
+        if not unchanged('the repeated call'):
+            return
+        if c02.json_key(out1) != c02.json_key(out2):
+            ctx.violation('oracle', 'crosstab: the same call repeated gives a different table', dict(case, first=out1, second=out2))
+            return
+        if not oracle(ctx, case, out1):
+            return
+        r0, c0 = (1 if rows > 1 else 0), (1 if cols > 1 else 0)
+        cut = lambda g: [row[c0:] for row in g[r0:]]
+        sub = dict(case, zones=cut(case['zones']))
+        if case['ndim'] == 2:
+            sub['values'] = cut(case['values'])
+        else:
+            sub['layers'] = [cut(L) for L in case['layers']]
+        subc, subr, _ = expectation(sub)
+        if not any(e == 'raise' for _, es in subr for e in es):
+            zz = z.isel({z.dims[0]: slice(r0, None), z.dims[1]: slice(c0, None)})
+            vv = v.isel({spatial[0]: slice(r0, None), spatial[1]: slice(c0, None)})
+            n0 = len(ctx.violations)
+            oracle(ctx, sub, canon_df(crosstab(zz, vv, zone_ids=sub['zone_ids'], cat_ids=sub['cat_ids'], layer=layer, agg=sub['agg'],
+                                               nodata_values=sub['nodata'])))
+            for vio in ctx.violations[n0:]:
+                vio['what'] = '[call on rasters derived by isel from already-processed ones] ' + vio['what']
+                vio['replay'] = dict(case, derived='isel')
+        zz = z.copy().assign_coords({z.dims[0]: ys[::-1]})
+        vv = v.astype('float64') if case['agg'] in ('count', 'percentage', 'sum', 'min', 'max') else v.copy(deep=True)
+        n0 = len(ctx.violations)
+        oracle(ctx, dict(case, vdtype='float64') if vv.dtype != v.dtype else case, call(zz, vv))
+        for vio in ctx.violations[n0:]:
+            vio['what'] = '[call on rasters derived by copy+assign_coords / astype from already-processed ones] ' + vio['what']
+            vio['replay'] = dict(case, derived='copy/astype')
+        unchanged('the calls on derived rasters')
+    except Exception as e:      # noqa
+        ctx.violation('oracle', 'crosstab raised %s: %s in a call sequence' % (type(e).__name__, e), case)
+
+
 def run(ctx, n=None):
     rng = ctx.rng
     n = n or (600 if ctx.quick() else 8000)
@@ -532,6 +734,16 @@ def run(ctx, n=None):
         one(ctx, case, pending)
     for i in range(30 if ctx.quick() else 600):        # appended stream: irregular zones / values chunk pairs
         one(ctx, gen_chunk_case(rng, i), pending)
+    # appended theme streams: layouts R/W, id containers / numpy-scalar nodata, float16, non-integer categories, string
+    # layer labels, degenerate rasters, call sequences
+    for i in range(132 if ctx.quick() else 3000):
+        one(ctx, gen_theme_case(rng, i), pending)
+    for i in range(30 if ctx.quick() else 500):
+        case = gen_case(rng, True, i)
+        case['theme'] = 'sequence'
+        ctx.case(case, nontrivial=nontrivial(case))
+        ctx.count('theme/numpy/%dD/sequence(repeat, inputs unchanged, derived rasters, coords+attrs)' % case['ndim'])
+        run_sequence(ctx, case)
     if ctx.model is not None and pending:
         outs = ctx.model.run([p[0] for p in pending])
         for (line, s, case, out), mo in zip(pending, outs):
@@ -554,4 +766,9 @@ def replay_case(ctx, case):
     for k in ('zones', 'values', 'layers', 'labels', 'zone_ids', 'cat_ids', 'nodata'):
         if k in case:
             case[k] = unjson(case[k])
+    for k in ('derived', 'step', 'first', 'second'):
+        case.pop(k, None)
+    if case.get('theme') == 'sequence':
+        run_sequence(ctx, case)
+        return
     one(ctx, case, [])
